@@ -2,6 +2,7 @@ import BSModel.Proofs.EncodingOut
 import BSModel.Proofs.EncodingOutUtf
 import BSModel.Proofs.EncodingOutSub
 import BSModel.Proofs.EncodingOutTree
+import BSModel.Proofs.EncodingOutDetect
 /-! # C08 — output in any target encoding is valid, lossless and self-describing
 
 Property theorems only. `pyEncode`/`encodeWith` is `str.encode(codec, errors)`, `encodeImpl`/`prettifyImpl`/`encodeContentsImpl`
@@ -532,7 +533,7 @@ example : substituteContent (ofS "866") (ofS "text/html; x=y" ++ 59 :: (ofS " " 
 /-- **The rewrite is literal, for ANY name.** Whenever `CHARSET_RE` finds a declaration in the original `content` value,
     the value rendered for a target name `e` — any code points whatsoever: leading digits (`866`, `1252`), backslashes,
     `\g<1>`, `$1`, `%s` — contains `e` verbatim (a callback, not a regex template, does the replacement), and no code path
-    can raise. (`meta_rewritten_content_partial` above also quantifies over every `e`, and every old value.) -/
+    can raise. (`meta_rewritten_content` above also quantifies over every `e`, and every old value.) -/
 theorem meta_rewritten_content_verbatim (e orig : PStr) (hp : isPythonSpecific e = false)
     (hs : charsetReSearch true orig = true) : e <:+: substituteContent e orig := by
   unfold substituteContent charsetReSub
@@ -590,14 +591,11 @@ theorem isPythonSpecific_iff (e : PStr) : isPythonSpecific e = true ↔ e ∈ do
 
 /-! ## 5. re-detection: the output of an ASCII-compatible codec carries a declaration a reader finds -/
 
-/-- **Partial in one respect only: the finder.** `findDeclared` takes the *first* `charset\s*=\s*["']?value` of the bytes;
-    dammit's `html_meta` regex takes the *last* one inside the first `<meta …>` tag that has one (C07 owns that regex; after
-    the both-styles repair every declaration of the rendered tag names the target, so the two choices agree on the value).
-    Everything else is general: for an ASCII-compatible codec, any ASCII text `pre` in which the word `charset` does not
-    occur (`quietDecl`, decidable: the `<html><head><title>…` before the tag, the tag's own earlier attributes), and the
-    HTML5 declaration as the renderer writes it for `e`, the bytes let the finder return `e`, whatever follows. The full
-    claim — `original_encoding` of a re-parse resolves to the target codec — is checked on the real code for every case. -/
-theorem redetect_charset_partial (C : Codec) (hc : C.AsciiCompat) (pre e rest : PStr) (hpre : ∀ c ∈ pre, c < 128)
+/-- The same fact for the simpler reader `findDeclared` that takes the *first* `charset\s*=\s*["']?value` anywhere in the
+    bytes (no `<meta` context): any ASCII text `pre` in which the word `charset` does not occur (`quietDecl`, decidable), then
+    the HTML5 declaration as the renderer writes it for `e`. (`redetect_charset` / `redetect_content` below are the statements
+    against dammit's own regex.) -/
+theorem redetect_charset_first_match (C : Codec) (hc : C.AsciiCompat) (pre e rest : PStr) (hpre : ∀ c ∈ pre, c < 128)
     (hq : quietDecl pre = true) (he : NameLike e) (hrest : C.Encodable rest) :
     findDeclared (C.enc (pre ++ ofS "charset=\"" ++ e ++ [34] ++ rest)) = some e := by
   have hasc : ∀ c ∈ pre ++ ofS "charset=\"" ++ e ++ [34], c < 128 := by
@@ -615,7 +613,7 @@ theorem redetect_charset_partial (C : Codec) (hc : C.AsciiCompat) (pre e rest : 
 
 /-- the same for the HTML4 declaration (`… charset=e"`, non-empty name): `pre` is then everything up to the key, e.g.
     `<html><head><meta content="text/html; ` -/
-theorem redetect_content_partial (C : Codec) (hc : C.AsciiCompat) (pre e rest : PStr) (hpre : ∀ c ∈ pre, c < 128)
+theorem redetect_content_first_match (C : Codec) (hc : C.AsciiCompat) (pre e rest : PStr) (hpre : ∀ c ∈ pre, c < 128)
     (hq : quietDecl pre = true) (he : NameLike e) (hne : e ≠ []) (hrest : C.Encodable rest) :
     findDeclared (C.enc (pre ++ ofS "charset=" ++ e ++ [34] ++ rest)) = some e := by
   have hasc : ∀ c ∈ pre ++ ofS "charset=" ++ e ++ [34], c < 128 := by
@@ -634,6 +632,78 @@ theorem redetect_content_partial (C : Codec) (hc : C.AsciiCompat) (pre e rest : 
   have e1 : pre ++ ofS "charset=" ++ (c :: cs) ++ [34] ++ C.enc rest = pre ++ (ofS "charset=" ++ (c :: cs ++ 34 :: C.enc rest)) := by
     simp [ofS]
   rw [e1, findDeclared_quiet pre _ hq, findDeclared_key_bare c cs _ he]
+
+/-- **Re-detection against the input side's own model (full for the HTML5 declaration).** `BS.EncodingIn.htmlSearch` is
+    C07's model of dammit's `html_meta` regex — leftmost `<\s*meta`, greedy `[^>]+`, the LAST `charset\s*=\s*["']?…` of that
+    tag. For every ASCII-compatible codec, every ASCII text `pre` before the tag in which that regex finds nothing (whatever
+    follows: `hq`), every tag `<meta A charset="e" B>` as `_format_tag` writes it (`A`: earlier attributes, any ASCII without
+    `>`; `B`: ASCII without `=` and `>`, e.g. the `/` of a void element), every name `e` a declaration can carry, and
+    everything after the tag: the regex, run on the bytes `encode` produced, returns `e`. -/
+theorem redetect_charset (C : Codec) (hc : C.AsciiCompat) (pre A e B rest : PStr)
+    (hpre : ∀ c ∈ pre, c < 128) (hq : ∀ X, EncodingIn.htmlSearch (pre ++ X) = EncodingIn.htmlSearch X)
+    (hA : ∀ c ∈ A, c < 128 ∧ c ≠ 62) (he : DetName e) (hB : ∀ c ∈ B, c < 128 ∧ c ≠ 61 ∧ c ≠ 62) (hrest : C.Encodable rest) :
+    EncodingIn.htmlSearch (C.enc ((pre ++ (ofS "<meta " ++ (A ++ (ofS "charset=\"" ++ (e ++ 34 :: (B ++ [62])))))) ++ rest)) = some e := by
+  have hasc : ∀ c ∈ pre ++ (ofS "<meta " ++ (A ++ (ofS "charset=\"" ++ (e ++ 34 :: (B ++ [62]))))), c < 128 := by
+    intro c hc
+    simp only [List.mem_append, List.mem_cons, List.mem_singleton, List.not_mem_nil, or_false] at hc
+    rcases hc with hc | hc | hc | hc | hc | rfl | hc | rfl
+    · exact hpre c hc
+    · revert c; decide
+    · exact (hA c hc).1
+    · revert c; decide
+    · exact (he c hc).1
+    · omega
+    · exact (hB c hc).1
+    · omega
+  rw [hc _ rest hasc hrest]
+  have e1 : (pre ++ (ofS "<meta " ++ (A ++ (ofS "charset=\"" ++ (e ++ 34 :: (B ++ [62])))))) ++ C.enc rest
+      = pre ++ (ofS "<meta " ++ (A ++ (ofS "charset=\"" ++ (e ++ 34 :: (B ++ 62 :: C.enc rest))))) := by simp
+  rw [e1, hq]
+  exact htmlSearch_meta A e B _ (fun c h => (hA c h).2) he (fun c h => ⟨(hB c h).2.1, (hB c h).2.2⟩)
+
+/-- … and for the HTML4 declaration: `<meta A charset=e" B>` where `A` is everything of the tag up to the key (e.g.
+    `content="text/html; `), `e` is non-empty, and `B` is the rest of the tag in which the regex finds nothing more
+    (`hB`, e.g. ` http-equiv="Content-Type"/`). -/
+theorem redetect_content (C : Codec) (hc : C.AsciiCompat) (pre A : PStr) (c : Nat) (cs B rest : PStr)
+    (hpre : ∀ x ∈ pre, x < 128) (hq : ∀ X, EncodingIn.htmlSearch (pre ++ X) = EncodingIn.htmlSearch X)
+    (hA : ∀ x ∈ A, x < 128 ∧ x ≠ 62) (he : DetName (c :: cs)) (hBa : ∀ x ∈ B, x < 128)
+    (hB : ∀ X, EncodingIn.lastCharset (B ++ 62 :: X) = none) (hrest : C.Encodable rest) :
+    EncodingIn.htmlSearch (C.enc ((pre ++ (ofS "<meta " ++ (A ++ (ofS "charset=" ++ (c :: cs ++ 34 :: (B ++ [62])))))) ++ rest))
+      = some (c :: cs) := by
+  have hasc : ∀ x ∈ pre ++ (ofS "<meta " ++ (A ++ (ofS "charset=" ++ (c :: cs ++ 34 :: (B ++ [62]))))), x < 128 := by
+    intro x hx
+    simp only [List.mem_append, List.mem_cons, List.mem_singleton, List.not_mem_nil, or_false] at hx
+    rcases hx with hx | hx | hx | hx | hx | rfl | hx | rfl
+    · exact hpre x hx
+    · revert x; decide
+    · exact (hA x hx).1
+    · revert x; decide
+    · rcases hx with rfl | hx
+      · exact (he _ (by simp)).1
+      · exact (he x (by simp [hx])).1
+    · omega
+    · exact hBa x hx
+    · omega
+  rw [hc _ rest hasc hrest]
+  have e1 : (pre ++ (ofS "<meta " ++ (A ++ (ofS "charset=" ++ (c :: cs ++ 34 :: (B ++ [62])))))) ++ C.enc rest
+      = pre ++ (ofS "<meta " ++ (A ++ (ofS "charset=" ++ (c :: cs ++ 34 :: (B ++ 62 :: C.enc rest))))) := by simp
+  rw [e1, hq]
+  exact htmlSearch_meta_bare A c cs B _ (fun x h => (hA x h).2) he (hB _)
+
+example : ∀ X, EncodingIn.lastCharset (ofS " http-equiv=\"Content-Type\"/" ++ 62 :: X) = none := by intro X; rfl
+example : EncodingIn.htmlSearch (latin1Codec.enc (decodeNode (some (ofS "latin-1")) []
+    (.tag (ofS "head") [] [.tag (ofS "title") [] [.text [0xE9]], metaContent, .tag (ofS "p") [] [.text [0x2603]]])))
+    = some (ofS "latin-1") := by decide +kernel
+
+-- the hypotheses are satisfiable: a real document head before the tag, a real codec, a real name
+example : ∀ X, EncodingIn.htmlSearch (ofS "<html><head><title>t</title>" ++ X) = EncodingIn.htmlSearch X := by intro X; rfl
+example : DetName (ofS "iso-8859-15") := by unfold DetName; decide
+example : EncodingIn.htmlSearch (utf8Codec.enc (decodeNode (some (ofS "utf-8")) []
+    (.tag (ofS "html") [] [.tag (ofS "head") [] [.tag (ofS "title") [] [.text [0x2603]], metaCharset], .text [0x1F600]])))
+    = some (ofS "utf-8") := by decide +kernel
+-- with both declaration styles in one tag the regex takes the one in `content` — which the repaired code has rewritten too
+example : EncodingIn.htmlSearch (latin1Codec.enc (decodeNode (some (ofS "latin-1")) []
+    (.tag (ofS "meta") (setUpSubstitutions (ofS "meta") metaBothAttrs) []))) = some (ofS "latin-1") := by decide +kernel
 
 /-- **BOM-carrying output.** `utf-32` output is always recognised by its mark, `utf-16` output whenever the rendering does
     not begin with U+0000 (a rendering begins with `<` or text) — the "(and those written with a byte-order mark)" clause. -/
